@@ -16,6 +16,10 @@ def flag_sections(rng, first, quick):
             groups[1 + pos // 7] |= 1 << (6 - pos % 7)
             out.append((enc(groups), True))
         out.append((enc([base7] + [0] * nb), False))       # cleared variant: all unknown bits zero
+    # long flag sections: many empty continuation bytes, then nothing / an unknown bit in the last one
+    for nb in (5, 7, 8, 9, 10, 64, 1000):
+        out.append((enc([base7] + [0] * nb), False))
+        out.append((enc([base7] + [0] * (nb - 1) + [1 << rng.below(7)]), True))
     for _ in range(20 if quick else 300):
         nb = rng.range(1, 4)
         groups = [base7 | (rng.below(2))] + [rng.below(128) for _ in range(nb)]
